@@ -205,7 +205,8 @@ def one(cfg, schedule, seed):
     if isinstance(pool, ThreadedPool):
         comp = pool.completion
         reorder = int(sum(1 for a, b in zip(comp, comp[1:]) if b < a))
-    return dict(dg=digest(core), post=digest(x, w, l), logz=float(s.evidence()[0]), calls=int(s.state.get_current("calls")),
+    return dict(dtypes=(sorted(like.keep_dtypes) if not isinstance(pool, int) or pool == 1 else None),
+                dg=digest(core), post=digest(x, w, l), logz=float(s.evidence()[0]), calls=int(s.state.get_current("calls")),
                 calls_hist=[int(v) for v in H["calls"]], seen=seen, n_iter=len(H["beta"]), reorder=reorder)
 
 
@@ -224,6 +225,9 @@ def run():
             dict(target="vonmises", kernel="rwm", clustering=False, mode="blobs", N=24, n_total=72, volume_variation=1.0)]
     cfgs += [dict(target="support", tkw=dict(f=0.6), kernel="rwm", clustering=False, mode="scalar", N=32, n_total=96, ess_ratio=3.0)]
     # the likelihood takes extra positional and keyword arguments (log_likelihood_args / log_likelihood_kwargs)
+    # prior transforms that return single-precision / extended-precision points: every strategy hands the likelihood the same points
+    cfgs += [dict(target="gauss2", kernel="rwm", clustering=False, mode="scalar", N=24, n_total=72, xdtype="float32"),
+             dict(target="expface", kernel="tpcn", clustering=False, mode="scalar", N=24, n_total=72, xdtype="longdouble")]
     cfgs += [dict(target="gauss2", kernel="tpcn", clustering=True, mode="scalar", N=32, n_total=96, like_args=True),
              dict(target="bimodal", kernel="rwm", clustering=False, mode="blobs", N=24, n_total=72, like_args=True)]
     if not ck.quick:
@@ -259,6 +263,10 @@ def run():
             if r["calls"] != r["seen"]:
                 ck.violation("calls-miscounted", f"schedule {sc}: state 'calls' = {r['calls']} but the likelihood was evaluated at {r['seen']} points "
                              f"(per-iteration calls {r['calls_hist'][:6]}...)", dict(cfg=kw["cfg"], seed=kw["seed"], schedule=sc))
+            if r.get("dtypes") is not None and ref is not None and ref[1].get("dtypes") is not None and r["dtypes"] != ref[1]["dtypes"]:
+                ck.violation("schedule-changes-points", f"schedule {sc} hands the likelihood points of dtype {r['dtypes']}, schedule {ref[0]} of dtype {ref[1]['dtypes']} "
+                             f"(the prior transform returns {kw['cfg'].get('xdtype', 'float64')}): what the likelihood sees depends on the evaluation strategy",
+                             dict(cfg=kw["cfg"], seed=kw["seed"], schedule=sc))
             if ref is None:
                 ref = (sc, r)
             elif r["dg"] != ref[1]["dg"] or r["post"] != ref[1]["post"] or r["logz"] != ref[1]["logz"]:
